@@ -230,6 +230,22 @@ func isFieldPtr(t types.Type) bool {
 // field however often it is re-read: all reads of the same member of the same parameter are represented by the first one.
 func canonField(v ssa.Value) ssa.Value {
 	v = stripIdentity(v)
+	// a variable kept in a cell (captured by a closure) and assigned once: every load is the cell's one value
+	if ld, ok := v.(*ssa.UnOp); ok && ld.Op == token.MUL {
+		if al, ok := ld.X.(*ssa.Alloc); ok && al.Referrers() != nil && isFieldPtr(v.Type()) {
+			n := 0
+			var only ssa.Value
+			for _, ref := range *al.Referrers() {
+				if st, ok := ref.(*ssa.Store); ok && st.Addr == ssa.Value(al) {
+					n++
+					only = st.Val
+				}
+			}
+			if n == 1 {
+				return canonField(only)
+			}
+		}
+	}
 	var prm *ssa.Parameter
 	idx := -1
 	switch x := v.(type) {
@@ -401,8 +417,124 @@ func fieldTest(cond ssa.Value) (f ssa.Value, refine func(St, bool) St) {
 			}
 		}
 	}
+	// a predicate of the repo handed one field: `isSingleNumber(f)`, `g.isText(f)` - what is known about the field where it says yes
+	if c, ok := cond.(*ssa.Call); ok {
+		if h := c.Call.StaticCallee(); h != nil && h.Blocks != nil && theWorld != nil && theWorld.isRepoLike(h) && h.Signature.Results().Len() == 1 && isBoolType(h.Signature.Results().At(0).Type()) {
+			pidx := -1
+			for i, a := range c.Call.Args {
+				if isFieldPtr(a.Type()) && i < len(h.Params) {
+					if pidx >= 0 {
+						return nil, nil // two fields: not a predicate on one
+					}
+					pidx = i
+				}
+			}
+			if pidx >= 0 {
+				yes := predicateYes(h, pidx)
+				if yes != stTop {
+					return c.Call.Args[pidx], func(s St, edge bool) St {
+						if edge != neg {
+							s.K &= yes.K
+							s.R &= yes.R
+							s.L &= yes.L
+						}
+						return s
+					}
+				}
+			}
+		}
+	}
 	return nil, nil
 }
+
+var predicateYesMemo = map[*ssa.Function]map[int]St{}
+var predicateYesBusy = map[*ssa.Function]bool{}
+
+// predicateYes: an over-approximation of the state of parameter pidx of the bool function h on the calls where h returns true.
+func predicateYes(h *ssa.Function, pidx int) St {
+	if m := predicateYesMemo[h]; m != nil {
+		if st, ok := m[pidx]; ok {
+			return st
+		}
+	}
+	if predicateYesBusy[h] {
+		return stTop
+	}
+	predicateYesBusy[h] = true
+	defer delete(predicateYesBusy, h)
+	param := ssa.Value(h.Params[pidx])
+	// the field tests of h on this parameter
+	type ft struct {
+		b      *ssa.BasicBlock
+		refine func(St, bool) St
+	}
+	var tests []ft
+	for _, b := range h.Blocks {
+		cond := branchCond(b)
+		if cond == nil {
+			continue
+		}
+		if f, refine := fieldTest(cond); f != nil && stripIdentity(f) == param {
+			tests = append(tests, ft{b, refine})
+		}
+	}
+	var whenTrue func(v ssa.Value, depth int) St
+	whenTrue = func(v ssa.Value, depth int) St {
+		if depth > 5 {
+			return stTop
+		}
+		switch x := v.(type) {
+		case *ssa.Const:
+			if x.Value != nil && x.Value.Kind() == constant.Bool && !constant.BoolVal(x.Value) {
+				return stBot
+			}
+			return stTop
+		case *ssa.Phi:
+			out := stBot
+			for i, e := range x.Edges {
+				st := whenTrue(e, depth+1)
+				// what the edge's origin block already knows
+				for _, t := range tests {
+					for succ := 0; succ < 2; succ++ {
+						if edgeDominates(t.b, succ, x.Block().Preds[i]) || (t.b == x.Block().Preds[i] && t.b.Succs[succ] == x.Block() && t.b.Succs[0] != t.b.Succs[1]) {
+							st = meetSt(st, t.refine(stTop, succ == 0))
+						}
+					}
+				}
+				out = joinSt(out, st)
+			}
+			return out
+		}
+		if f, refine := fieldTest(v); f != nil && stripIdentity(f) == param {
+			return refine(stTop, true)
+		}
+		return stTop
+	}
+	out := stBot
+	for _, b := range h.Blocks {
+		ret, ok := b.Instrs[len(b.Instrs)-1].(*ssa.Return)
+		if !ok || len(ret.Results) != 1 {
+			continue
+		}
+		st := whenTrue(ret.Results[0], 0)
+		for _, t := range tests {
+			for succ := 0; succ < 2; succ++ {
+				if edgeDominates(t.b, succ, b) {
+					st = meetSt(st, t.refine(stTop, succ == 0))
+				}
+			}
+		}
+		out = joinSt(out, st)
+	}
+	if predicateYesMemo[h] == nil {
+		predicateYesMemo[h] = map[int]St{}
+	}
+	predicateYesMemo[h][pidx] = out
+	return out
+}
+
+func meetSt(a, b St) St { return St{a.K & b.K, a.R & b.R, a.L & b.L} }
+func joinSt(a, b St) St { return St{a.K | b.K, a.R | b.R, a.L | b.L} }
 
 func newMatrix(w *World) *matrix {
 	m := &matrix{w: w, facts: map[*ssa.Function]*fnFacts{}, anchors: map[*ssa.Function]bool{}, summ: map[summKey]src{}, inprog: map[summKey]bool{},
@@ -726,8 +858,151 @@ func calleeOf(c ssa.CallInstruction) *ssa.Function {
 	return closureTarget(c.Common().Value, 0)
 }
 
+// closureTargets: every function a function-typed value may be: closure literals, function constants, what helper calls return,
+// what is stored into the variable / record member it is loaded from, what the call sites pass for a parameter. Unknown origins
+// contribute nothing (the result is a may-set that can be incomplete only for values that escape the repo).
+func closureTargets(v ssa.Value, depth int, seen map[ssa.Value]bool) []*ssa.Function {
+	if v == nil || depth > 6 || seen[v] {
+		return nil
+	}
+	seen[v] = true
+	var out []*ssa.Function
+	add := func(fs []*ssa.Function) {
+		for _, f := range fs {
+			dup := false
+			for _, g := range out {
+				if g == f {
+					dup = true
+				}
+			}
+			if !dup && f != nil {
+				out = append(out, f)
+			}
+		}
+	}
+	cellStores := func(al *ssa.Alloc) {
+		if al.Referrers() == nil {
+			return
+		}
+		for _, ref := range *al.Referrers() {
+			if st, ok := ref.(*ssa.Store); ok && st.Addr == ssa.Value(al) {
+				add(closureTargets(st.Val, depth+1, seen))
+			}
+		}
+	}
+	switch x := stripIdentity(v).(type) {
+	case *ssa.MakeClosure:
+		if f, ok := x.Fn.(*ssa.Function); ok {
+			add([]*ssa.Function{f})
+		}
+	case *ssa.Function:
+		add([]*ssa.Function{x})
+	case *ssa.Phi:
+		for _, e := range x.Edges {
+			add(closureTargets(e, depth+1, seen))
+		}
+	case *ssa.Call:
+		if g := x.Call.StaticCallee(); g != nil && g.Blocks != nil {
+			for _, b := range g.Blocks {
+				if ret, ok := b.Instrs[len(b.Instrs)-1].(*ssa.Return); ok && len(ret.Results) == 1 {
+					add(closureTargets(ret.Results[0], depth+1, seen))
+				}
+			}
+		}
+	case *ssa.Parameter:
+		if theWorld == nil {
+			return nil
+		}
+		fn := x.Parent()
+		for i, p := range fn.Params {
+			if p != x {
+				continue
+			}
+			for _, g := range theWorld.allFuncsInRepo() {
+				forEachInstr(g, func(_ *ssa.BasicBlock, ins ssa.Instruction) {
+					if c, ok := ins.(ssa.CallInstruction); ok && c.Common().StaticCallee() == fn && i < len(c.Common().Args) {
+						add(closureTargets(c.Common().Args[i], depth+1, seen))
+					}
+				})
+			}
+		}
+	case *ssa.UnOp:
+		if x.Op != token.MUL {
+			return nil
+		}
+		switch c := x.X.(type) {
+		case *ssa.Alloc:
+			cellStores(c)
+		case *ssa.FreeVar:
+			g := c.Parent()
+			if g == nil || g.Parent() == nil {
+				return nil
+			}
+			for j, fv := range g.FreeVars {
+				if fv != c {
+					continue
+				}
+				forEachInstr(g.Parent(), func(_ *ssa.BasicBlock, ins ssa.Instruction) {
+					if mc, ok := ins.(*ssa.MakeClosure); ok && mc.Fn == ssa.Value(g) && j < len(mc.Bindings) {
+						if al, ok := mc.Bindings[j].(*ssa.Alloc); ok {
+							cellStores(al)
+						}
+					}
+				})
+			}
+		case *ssa.FieldAddr:
+			if theWorld == nil {
+				return nil
+			}
+			tn, fname, _, _ := fieldOf(c)
+			for _, g := range theWorld.allFuncsInRepo() {
+				forEachInstr(g, func(_ *ssa.BasicBlock, ins ssa.Instruction) {
+					st, ok := ins.(*ssa.Store)
+					if !ok {
+						return
+					}
+					if fa, ok := st.Addr.(*ssa.FieldAddr); ok {
+						if tn2, f2, _, _ := fieldOf(fa); tn2 == tn && f2 == fname {
+							add(closureTargets(st.Val, depth+1, seen))
+						}
+					}
+				})
+			}
+		case *ssa.IndexAddr:
+			// an element of a table of functions / of records: the members stored into elements of that table type
+		}
+	case *ssa.FreeVar:
+		g := x.Parent()
+		if g == nil || g.Parent() == nil {
+			return nil
+		}
+		for j, fv := range g.FreeVars {
+			if fv != x {
+				continue
+			}
+			forEachInstr(g.Parent(), func(_ *ssa.BasicBlock, ins ssa.Instruction) {
+				if mc, ok := ins.(*ssa.MakeClosure); ok && mc.Fn == ssa.Value(g) && j < len(mc.Bindings) {
+					add(closureTargets(mc.Bindings[j], depth+1, seen))
+				}
+			})
+		}
+	}
+	return out
+}
+
+// calleesOfAll: the functions a call may enter: the static callee, or every target of the called function value.
+func calleesOfAll(c ssa.CallInstruction) []*ssa.Function {
+	if f := c.Common().StaticCallee(); f != nil {
+		return []*ssa.Function{f}
+	}
+	if c.Common().IsInvoke() {
+		return nil
+	}
+	return closureTargets(c.Common().Value, 0, map[ssa.Value]bool{})
+}
+
 func closureTarget(v ssa.Value, depth int) *ssa.Function {
-	if depth > 3 {
+	if depth > 5 {
 		return nil
 	}
 	switch x := stripIdentity(v).(type) {
@@ -736,6 +1011,42 @@ func closureTarget(v ssa.Value, depth int) *ssa.Function {
 		return f
 	case *ssa.Function:
 		return x
+	case *ssa.Parameter:
+		// a function-typed parameter: the one function every call site in the program text passes
+		if _, ok := x.Type().Underlying().(*types.Signature); !ok || theWorld == nil {
+			return nil
+		}
+		fn := x.Parent()
+		idx := -1
+		for i, p := range fn.Params {
+			if p == x {
+				idx = i
+			}
+		}
+		var tgt *ssa.Function
+		sites := 0
+		for _, g := range theWorld.allFuncsInRepo() {
+			bad := false
+			forEachInstr(g, func(_ *ssa.BasicBlock, ins ssa.Instruction) {
+				c, ok := ins.(ssa.CallInstruction)
+				if !ok || c.Common().StaticCallee() != fn || idx < 0 || idx >= len(c.Common().Args) {
+					return
+				}
+				sites++
+				t := closureTarget(c.Common().Args[idx], depth+1)
+				if t == nil || (tgt != nil && tgt != t) {
+					bad = true
+				}
+				tgt = t
+			})
+			if bad {
+				return nil
+			}
+		}
+		if sites == 0 {
+			return nil
+		}
+		return tgt
 	case *ssa.Call:
 		g := x.Call.StaticCallee()
 		if g == nil || g.Blocks == nil {
@@ -771,6 +1082,46 @@ func closureTarget(v ssa.Value, depth int) *ssa.Function {
 		}
 		var cell *ssa.Alloc
 		switch c := x.X.(type) {
+		case *ssa.FieldAddr:
+			// a function stored in a field of a record: the one function every store to that field (anywhere in the repo) puts there
+			if _, ok := x.Type().Underlying().(*types.Signature); !ok || theWorld == nil {
+				return nil
+			}
+			tn, fname, _, _ := fieldOf(c)
+			var tgt *ssa.Function
+			stores := 0
+			for _, g := range theWorld.allFuncsInRepo() {
+				bad := false
+				forEachInstr(g, func(_ *ssa.BasicBlock, ins ssa.Instruction) {
+					st, ok := ins.(*ssa.Store)
+					if !ok {
+						return
+					}
+					fa, ok := st.Addr.(*ssa.FieldAddr)
+					if !ok {
+						return
+					}
+					if tn2, f2, _, _ := fieldOf(fa); tn2 != tn || f2 != fname {
+						return
+					}
+					if k, ok := st.Val.(*ssa.Const); ok && k.IsNil() {
+						return
+					}
+					stores++
+					t := closureTarget(st.Val, depth+1)
+					if t == nil || (tgt != nil && tgt != t) {
+						bad = true
+					}
+					tgt = t
+				})
+				if bad {
+					return nil
+				}
+			}
+			if stores == 0 {
+				return nil
+			}
+			return tgt
 		case *ssa.Alloc:
 			cell = c
 		case *ssa.FreeVar:
